@@ -198,6 +198,9 @@ type c13Typed struct {
 	readOld  func(f *parquet.File, from int64) (any, error) // deprecated Reader: Read(&T), optional SeekToRow
 	readRG   func(f *parquet.File, g int) (any, error)      // NewGenericRowGroupReader[T]
 	rewrite  func(f *parquet.File, g int) ([]byte, error)   // GenericWriter[T].WriteRowGroup(row group g) into a new file
+	// read to the failure, Reset(), read again (twice): GenericReader[T] (old = false) or the deprecated
+	// Reader; limit = number of rows of the file in front of the corrupted page
+	readReset func(f *parquet.File, old bool, limit int64, want func() (any, error)) (any, error)
 	drop     func(rows any, k int64) any
 }
 
@@ -309,6 +312,74 @@ func c13TypedOf[T any](gen func(cfg c13Config, r *rand.Rand) []T) c13Typed {
 				}
 			}
 			return out, errors.New("c13: reader does not terminate")
+		},
+		readReset: func(f *parquet.File, old bool, limit int64, want func() (any, error)) (any, error) {
+			var read func() ([]T, error)
+			var reset func()
+			if old {
+				r := parquet.NewReader(f)
+				defer r.Close()
+				reset = r.Reset
+				read = func() ([]T, error) {
+					var out []T
+					for spins := 0; spins < 1<<20; spins++ {
+						var row T
+						err := r.Read(&row)
+						if err == io.EOF {
+							return out, nil
+						}
+						if err != nil {
+							return out, err
+						}
+						out = append(out, row)
+					}
+					return out, errors.New("c13: reader does not terminate")
+				}
+			} else {
+				r := parquet.NewGenericReader[T](f)
+				defer r.Close()
+				reset = r.Reset
+				read = func() ([]T, error) {
+					var out []T
+					for spins := 0; spins < 1<<16; spins++ {
+						buf := make([]T, 37)
+						n, err := r.Read(buf)
+						if err != nil && err != io.EOF {
+							return out, err
+						}
+						out = append(out, buf[:n]...)
+						if err == io.EOF {
+							return out, nil
+						}
+					}
+					return out, errors.New("c13: reader does not terminate")
+				}
+			}
+			first, err0 := read()
+			if err0 == nil || !errors.Is(err0, parquet.ErrCorrupted) {
+				return first, err0
+			}
+			w, err := want()
+			if err != nil {
+				return nil, err
+			}
+			for round := 1; round <= 2; round++ {
+				reset()
+				again, err := read()
+				if !c13IsPrefix(again, w) {
+					return nil, &c13RetryErr{"reset", fmt.Sprintf("after Reset() number %d the reader delivered %d rows that are not the pristine rows 0.. (err=%v)", round, len(again), err)}
+				}
+				if int64(len(again)) > limit {
+					return nil, &c13RetryErr{"reset", fmt.Sprintf("after Reset() number %d the reader delivered %d rows, beyond row %d where the corrupted page starts (err=%v)", round, len(again), limit, err)}
+				}
+				if err == nil {
+					return nil, &c13RetryErr{"reset", fmt.Sprintf("after Reset() number %d the reader ran through the corrupted page to the end with no error (%d rows)", round, len(again))}
+				}
+				if !errors.Is(err, parquet.ErrCorrupted) {
+					return nil, &c13RetryErr{"reset", fmt.Sprintf("after Reset() number %d the read reaching the corrupted page failed with an error that is not ErrCorrupted: %v", round, err)}
+				}
+			}
+			return first, err0
 		},
 		rewrite: func(f *parquet.File, g int) ([]byte, error) {
 			buf := new(bytes.Buffer)
@@ -709,6 +780,40 @@ func c13RetryRows(rows parquet.Rows, k, k2 int64, earlier []int64, firstRow int6
 		}
 		return nil
 	}
+	// Reset (rowGroupRows, and whatever else offers it: the optimisation GenericReader.Reset / Reader.Reset
+	// rely on) is the other way of repositioning a reader after a failure: the read that follows starts at
+	// row 0 again: pristine rows in front of the corrupted page, then the corruption is reported again
+	reset := func(stage string) error {
+		rs, ok := rows.(interface{ Reset() })
+		if !ok {
+			return nil
+		}
+		want, err := pristineFrom(0)
+		if err != nil {
+			return err
+		}
+		rs.Reset()
+		more, err := c13DrainRows(rows)
+		wr := want.([]parquet.Row)
+		if len(more) > len(wr) || !c13Same(more, wr[:len(more)]) {
+			return &c13RetryErr{stage, fmt.Sprintf("after Reset() the read delivered %d rows that are not the pristine rows 0.. (err=%v)", len(more), err)}
+		}
+		if int64(len(more)) > firstRow {
+			return &c13RetryErr{stage, fmt.Sprintf("after Reset() the read delivered %d rows, beyond row %d where the corrupted page starts (err=%v)", len(more), firstRow, err)}
+		}
+		if err == nil {
+			return &c13RetryErr{stage, fmt.Sprintf("after Reset() the read ran through the corrupted page to the end with no error (%d rows)", len(more))}
+		}
+		if !errors.Is(err, parquet.ErrCorrupted) {
+			return &c13RetryErr{stage, fmt.Sprintf("after Reset() the read reaching the corrupted page failed with an error that is not ErrCorrupted: %v", err)}
+		}
+		return nil
+	}
+	// straight after the first failure (the columns in front of the failing one have consumed a batch,
+	// nothing was handed out yet when the corruption sits in the first page)
+	if err := reset("reset"); err != nil {
+		return nil, err
+	}
 	if err := through(); err != nil {
 		return nil, err
 	}
@@ -758,6 +863,10 @@ func c13RetryRows(rows parquet.Rows, k, k2 int64, earlier []int64, firstRow int6
 	if err := through(); err != nil {
 		return nil, err
 	}
+	// Reset after seeks (rowIndex is then wherever the last seek left it)
+	if err := reset("reset-after-seek"); err != nil {
+		return nil, err
+	}
 	return nil, err0
 }
 
@@ -790,9 +899,10 @@ func c13DrainPages(pages parquet.Pages) ([]string, error) {
 	return out, errors.New("c13: reader does not terminate")
 }
 
-// c13RetryPages: the same at the level of one column chunk (FilePages); a read without a seek after
-// the failure is not judged there (the position is undefined and the next page may be delivered).
-func c13RetryPages(pages parquet.Pages, k, k2 int64, earlier []int64, firstRow int64, strictPast bool, pristineFrom func(int64) (any, error)) (any, error) {
+// c13RetryPages: the same at the level of one column chunk (FilePages). A read without a seek after
+// the failure may deliver the next page (the position is undefined), so it is only demanded that such a
+// page is a pristine one (readOn) — and that the seeks that follow it behave as after the failure itself.
+func c13RetryPages(pages parquet.Pages, k, k2 int64, earlier []int64, firstRow int64, badOrd int, strictPast bool, pristineFrom func(int64) (any, error)) (any, error) {
 	defer pages.Close()
 	got, err0 := c13DrainPages(pages)
 	if err0 == nil {
@@ -800,6 +910,62 @@ func c13RetryPages(pages parquet.Pages, k, k2 int64, earlier []int64, firstRow i
 	}
 	if !errors.Is(err0, parquet.ErrCorrupted) {
 		return nil, err0
+	}
+	// A consumer that tolerates the failure and READS ON without seeking (the position is undefined
+	// then, so which page comes is not judged) must still never be handed corrupted data: whatever page
+	// is delivered holds the values of a pristine page other than the corrupted one (or the tail of one:
+	// a pending skip may cut its front), and the reader keeps to the contract of the stages below after
+	// any number of such reads.
+	readOn := func(stage string, m int) error {
+		want, err := pristineFrom(0)
+		if err != nil {
+			return err
+		}
+		var pristine [][]string // values per data page, in order
+		var cur []string
+		for _, v := range want.([]string) {
+			if strings.HasPrefix(v, "|rows=") {
+				pristine = append(pristine, cur)
+				cur = nil
+				continue
+			}
+			cur = append(cur, v)
+		}
+		for i := 0; i < m; i++ {
+			p, err := pages.ReadPage()
+			if err != nil {
+				return nil // io.EOF or a failure: nothing was delivered
+			}
+			vals := make([]parquet.Value, p.NumValues()+1)
+			vr := p.Values()
+			total := 0
+			for total < len(vals) {
+				n, err := vr.ReadValues(vals[total:])
+				total += n
+				if err != nil || n == 0 {
+					break
+				}
+			}
+			var gotv []string
+			for _, v := range vals[:total] {
+				gotv = append(gotv, fmt.Sprintf("%+v", v))
+			}
+			parquet.Release(p)
+			ok := false
+			for ord, pv := range pristine {
+				if ord == badOrd || len(gotv) > len(pv) {
+					continue
+				}
+				if len(gotv) == 0 || reflect.DeepEqual(gotv, pv[len(pv)-len(gotv):]) {
+					ok = true
+					break
+				}
+			}
+			if !ok {
+				return &c13RetryErr{stage, fmt.Sprintf("ReadPage number %d after the failed one (no seek) delivered %d values that are not the values (or a tail) of any pristine page other than the corrupted one", i+1, len(gotv))}
+			}
+		}
+		return nil
 	}
 	through := func() error {
 		for _, k0 := range earlier {
@@ -850,12 +1016,23 @@ func c13RetryPages(pages parquet.Pages, k, k2 int64, earlier []int64, firstRow i
 		}
 		return nil
 	}
+	// read on once right after the first failure, then seek into the corrupted page
+	if err := readOn("readon", 1); err != nil {
+		return nil, err
+	}
+	if err := into("readon-into"); err != nil {
+		return nil, err
+	}
 	if err := into("into"); err != nil {
 		return nil, err
 	}
 	if k2 >= 0 {
 		want, err := pristineFrom(k2)
 		if err != nil {
+			return nil, err
+		}
+		// (the reader has just failed again) read on, then seek behind the corrupted page
+		if err := readOn("readon", 1); err != nil {
 			return nil, err
 		}
 		if err := pages.SeekToRow(k2); err != nil {
@@ -875,7 +1052,18 @@ func c13RetryPages(pages parquet.Pages, k, k2 int64, earlier []int64, firstRow i
 			return nil, err
 		}
 	}
+	// read on twice (to the end of the chunk when the corrupted page is its last or last but one), then
+	// seek in front of the corrupted page and read through it, then into it once more
+	if err := readOn("readon", 2); err != nil {
+		return nil, err
+	}
 	if err := through(); err != nil {
+		return nil, err
+	}
+	if err := readOn("readon", 2); err != nil {
+		return nil, err
+	}
+	if err := into("readon-into"); err != nil {
 		return nil, err
 	}
 	return nil, err0
@@ -1114,7 +1302,7 @@ func (e *c13Env) accesses(p c13Page, r *rand.Rand) []c13Access {
 				if err != nil {
 					return nil, err
 				}
-				return c13RetryPages(f.RowGroups()[g].ColumnChunks()[col].Pages(), kr, k2, earlier, p.FirstRow, mode == "", pagesFrom)
+				return c13RetryPages(f.RowGroups()[g].ColumnChunks()[col].Pages(), kr, k2, earlier, p.FirstRow, p.DataOrd, mode == "", pagesFrom)
 			})
 		}
 	}
